@@ -726,7 +726,7 @@ impl<'a> Sc<'a> {
                 s.handles[to as usize][x as usize] += 1;
                 done!()
             }
-            Op::ArcDrop { x } | Op::ArcDecStrong { x } => {
+            Op::ArcDrop { x } | Op::ArcDecStrong { x } | Op::ArcDropUnwind { x } => {
                 let xi = x as usize;
                 s.handles[t][xi] -= 1;
                 s.arc_cnt[xi] -= 1;
@@ -789,7 +789,7 @@ impl<'a> Sc<'a> {
                 s.tracks[k as usize] = 1;
                 done!()
             }
-            Op::TrackDrop { k } => {
+            Op::TrackDrop { k } | Op::TrackDropUnwind { k } => {
                 let had = s.tracks[k as usize] == 1;
                 s.tracks[k as usize] = 0;
                 done!(had as i64)
@@ -806,7 +806,7 @@ impl<'a> Sc<'a> {
                 s.allocs[k as usize] = true;
                 done!()
             }
-            Op::Dealloc { k } => {
+            Op::Dealloc { k } | Op::DeallocUnwind { k } => {
                 let had = s.allocs[k as usize];
                 s.allocs[k as usize] = false;
                 done!(had as i64)
